@@ -63,7 +63,43 @@ TIterNext ==
           /\ IterNext(e.id)
      ELSE UNCHANGED iters
 
-TNext == TNew \/ TLoad \/ TScan \/ TIterNew \/ TIterNext
+\* large and deep tries (Layer P only).  e.rk / e.rv: the retained keys and their values as the
+\* harness computes them; per scan: yi = the yielded keys as positions in rk (0: not a retained
+\* key), yvi = the yielded values (-2^31: nil), pb / pe = number of retained keys below the
+\* start / the end (witnesses, verified here)
+NilI == -2147483647 - 1
+BelowOK(rk, p, s) == p \in 0..Len(rk) /\ (p = 0 \/ Lt(rk[p], s)) /\ (p = Len(rk) \/ Le(s, rk[p + 1]))
+BigScanExpect(rk, sc) ==
+  LET n == Len(rk)
+      first == IF sc.pb < n /\ sc.incl = 0 /\ rk[sc.pb + 1] = sc.start THEN sc.pb + 2 ELSE sc.pb + 1
+      last == IF sc.hasend = 0 THEN n
+              ELSE IF sc.pe < n /\ sc.inclend = 1 /\ rk[sc.pe + 1] = sc.end THEN sc.pe + 1 ELSE sc.pe
+      cnt0 == IF last >= first THEN last - first + 1 ELSE 0
+      cnt == IF sc.stop >= 0 /\ sc.stop < cnt0 THEN sc.stop ELSE cnt0
+  IN [x \in 1..cnt |-> first + x - 1]
+BigScanBad(e, sc) ==
+  LET exp == BigScanExpect(e.rk, sc) IN
+  (IF sc.pan # "" THEN {"panic"} ELSE {})
+  \cup (IF sc.pan = "" /\ Len(sc.yi) # Len(exp) THEN {"count"} ELSE {})
+  \cup (IF sc.pan = "" /\ Len(sc.yi) = Len(exp) /\ sc.yi # exp THEN {"keys"} ELSE {})
+  \cup (IF sc.pan = "" /\ Len(sc.yi) = Len(exp) /\ sc.yi = exp
+           /\ \E x \in 1..Len(exp) : sc.yvi[x] # (IF sc.withvalue = 1 THEN e.rv[exp[x]] ELSE NilI)
+        THEN {"values"} ELSE {})
+  \cup (IF sc.extras # 0 THEN {"after-exhaustion"} ELSE {})
+TScanBig ==
+  /\ Ev("scanbig") /\ inst' = NoInst /\ iters' = NoIters
+  /\ LET e == Trace[l] IN
+     /\ Report(l, "W:scan-witness",
+               (IF ~StrictAsc(e.rk) \/ Len(e.rv) # Len(e.rk) THEN {0} ELSE {})
+               \cup {x \in 1..Len(e.scans) : ~BelowOK(e.rk, e.scans[x].pb, e.scans[x].start)
+                                              \/ (e.scans[x].hasend = 1 /\ ~BelowOK(e.rk, e.scans[x].pe, e.scans[x].end))})
+     /\ \A api \in {"from", "fromto", "iter"} :
+          Report(l, "P:C04:" \o api, UNION {BigScanBad(e, e.scans[x]) : x \in {y \in 1..Len(e.scans) : e.scans[y].api = api}})
+TBigFail ==
+  /\ Ev("bigfail") /\ inst' = NoInst /\ iters' = NoIters
+  /\ Report(l, "P:C08:outcome", {1})
+
+TNext == TNew \/ TLoad \/ TScan \/ TIterNew \/ TIterNext \/ TScanBig \/ TBigFail
 
 Accepted == TLCGet("stats").diameter - 1 = Len(Trace)
 =============================================================================
